@@ -84,3 +84,9 @@ Example c02_example :
                  out = concat (map (fun d => print d ++ [10%N]) (emf_docs c None e 0 [])) /\
                  length (emf_docs c None e 0 []) = 2.
 Proof. cbv zeta. eexists _, _. split; [vm_compute; reflexivity | split; vm_compute; reflexivity]. Qed.
+
+(* the executable parser (the predicate applied to the implementation's bytes) inverts the printer *)
+From MV Require Import Json.RoundTrip.
+Theorem c02_parse_print : forall j, wf j -> parse (print j) = Some j.
+Proof. exact parse_print. Qed.
+Print Assumptions c02_parse_print.
